@@ -430,6 +430,15 @@ def case_traced(c: dict) -> dict:
                 m.hydrodynamics.findMatching(max(float(m.hydrodynamics.vMin), 2e-3) * 1.0000001 + 1e-9)
             elif op == "wallSpeedLTE":
                 m.wallSpeedLTE()
+            elif op == "previous-point(wallSpeedLTE)":
+                # the manager was used for another parameter point at the SAME Tn before (LTE velocity asked there too)
+                wg.resetup(m, MD.xsm2(lh=0.135), Tn, "S1", "S0")  # lh changes the broken phase, hence the equation of state
+                m.wallSpeedLTE()
+                wg.resetup(m, MD.xsm2(), Tn, "S1", "S0")
+            elif op == "previous-Tn(wallSpeedLTE)":
+                wg.resetup(m, MD.xsm2(), Tn - 3.0, "S1", "S0")
+                m.wallSpeedLTE()
+                wg.resetup(m, MD.xsm2(), Tn, "S1", "S0")
         except Exception:
             r.tag("history-op-raised")
     try:
@@ -454,7 +463,8 @@ def case_traced(c: dict) -> dict:
 def traced_cases(tier: str) -> list[dict]:
     out = []
     for Tn in (100.0,) if tier == "quick" else (95.0, 100.0, 103.0):
-        for before in ([], ["findMatching(slow)"], ["wallSpeedLTE"]):
+        for before in ([], ["findMatching(slow)"], ["wallSpeedLTE"], ["previous-point(wallSpeedLTE)"], ["previous-Tn(wallSpeedLTE)"],
+                       ["wallSpeedLTE", "previous-point(wallSpeedLTE)"]):
             out.append({"id": f"xsm2,Tn={Tn:g},before=[{','.join(before)}]", "Tn": Tn, "before": before})
     return out
 
